@@ -104,6 +104,27 @@ def failure_key(case, o, cls):
     return None
 
 
+def judge(case, o):
+    """all failing elements of one case as (class, message, known-finding key or None).
+    A block whose LAST operation raised (expected: an element id that does not exist, caught by the caller) is judged twice:
+    the exception itself, and - class 'state after a caught exception' - what the block and the argument hold afterwards, which
+    must be the finished result of the operations before the failing one (resp. the unchanged-or-equal argument)."""
+    out = [(cls, msg, failure_key(case, o, cls)) for cls, msg in ORA.check(case, o)]
+    if case.get("expect_error") and o.get("status") == "err":
+        opk = "splits" if case["kind"] == "poly" else "ops"
+        if "after" not in o:
+            out.append(("result/after-exception", "after the caught exception the block's mesh / the argument could not be inspected: "
+                        + o.get("after_error", "?"), None))
+        else:
+            c2 = dict(case)
+            c2[opk] = case[opk][:-1]
+            c2.pop("expect_error", None)
+            o2 = dict(o["after"], status="ok", input=o["input"])
+            for cls, msg in ORA.check(c2, o2):
+                out.append((cls, "after a caught %s of the last operation: %s" % (o["err"].split(":")[0], msg), failure_key(c2, o2, cls)))
+    return out
+
+
 def gen(ctx):
     files = tr.gen()
     ctx.extra["source_sha256_16"] = dict(tr.LAST_SOURCE_SHA)
@@ -190,10 +211,32 @@ def gen_surf_case(rng, max_faces):
                 ar = ar2
                 levels += cost
                 break
-    case = {"kind": "surf", "V": mesh["V"], "F": mesh["F"], "ops": ops, "query": rng.random() < 0.5,
-            "planar": mesh["planar"], "seed_kind": mesh["seed_kind"]}
-    if rng.random() < 0.03:
-        case["ops"] = ops + [[rng.choice(["fan", "triface"]), len(ar) + rng.randrange(3)]]
+    # call forms: positional / keyword / argument omitted (only where the value is the documented default 1)
+    ops2 = []
+    for op in ops:
+        if op[0] in ("loop", "tri6"):
+            form = rng.choices(["pos", "kw", "default"], [6, 2, 2])[0]
+            if form == "default" and op[1] != 1:
+                form = "kw"
+            ops2.append([op[0], op[1], form])
+        elif op[0] in ("fan", "triface"):
+            ops2.append([op[0], op[1], rng.choice(["pos", "pos", "kw"])])
+        else:
+            ops2.append(op)
+    ops = ops2
+    V, F, planar = mesh["V"], mesh["F"], mesh["planar"]
+    if rng.random() < 0.2:                       # the whole surface with the other orientation (clockwise if planar)
+        F = [list(reversed(f)) for f in F]
+        planar = False
+    through_set = any(op[0] == "loop" and op[1] >= 1 for op in ops)
+    if rng.random() < 0.05 and not through_set:  # valid combinatorics on degenerate geometry: all vertices coincide
+        V = [[G.UNIT, 2 * G.UNIT, 3 * G.UNIT] for _ in V]
+        planar = False
+        mesh = dict(mesh, seed_kind=mesh["seed_kind"] + "+coincident")
+    case = {"kind": "surf", "V": V, "F": F, "ops": ops, "query": rng.random() < 0.5,
+            "planar": planar, "seed_kind": mesh["seed_kind"], "np_ints": rng.random() < 0.3}
+    if rng.random() < 0.08:
+        case["ops"] = ops + [[rng.choice(["fan", "triface"]), len(ar) + rng.randrange(3), "pos"]]
         case["expect_error"] = True
     return case
 
@@ -215,8 +258,8 @@ def gen_poly_case(rng):
         splits.append(rng.randrange(nE))
         nE += 1
     case = {"kind": "poly", "V": mesh["V"], "E": mesh["E"], "splits": splits, "query": rng.random() < 0.5,
-            "seed_kind": mesh["seed_kind"]}
-    if rng.random() < 0.04:
+            "seed_kind": mesh["seed_kind"], "np_ints": rng.random() < 0.3}
+    if rng.random() < 0.1:
         case["splits"] = splits + [nE + rng.randrange(2)]
         case["expect_error"] = True
     return case
@@ -238,9 +281,9 @@ def gen_vol_case(rng):
             nF += 2
             nC += 2
     case = {"kind": "vol", "V": mesh["V"], "C": mesh["C"], "ops": ops, "query": rng.random() < 0.5,
-            "seed_kind": mesh["seed_kind"]}
-    if rng.random() < 0.03:
-        case["ops"] = ops + [["cellfan", nC + 50]]
+            "seed_kind": mesh["seed_kind"], "np_ints": rng.random() < 0.3}
+    if rng.random() < 0.1:
+        case["ops"] = ops + [rng.choice([["cellfan", nC + 50], ["facecentre", nF + 50]])]
         case["expect_error"] = True
     return case
 
@@ -285,6 +328,8 @@ SOP = {"triface": "TriFace %s", "fan": "Fan %s", "triangulate": "Triangulate", "
 
 def sop_term(op):
     t = SOP[op[0]]
+    if len(op) > 2 and op[2] == "default":      # argument omitted in the call: the model uses the default read off the source
+        return "(Loop loop_default_n)" if op[0] == "loop" else "(Tri6 t6_default_r)"
     return "(" + (t % zlit(op[1]) if "%s" in t else t) + ")"
 
 
@@ -295,14 +340,15 @@ def edges_ok(E):
 def surf_term(case, o):
     V = "[" + "; ".join(pt_in(p) for p in case["V"]) + "]"
     ops = "[" + "; ".join(sop_term(op) for op in case["ops"]) + "]"
-    if o["status"] == "err":
+    if o["status"] == "err" and "after" not in o:
         out = "(SErr %s)" % err_term(o["err"])
     else:
-        r, a = o["res"], o["arg"]
-        out = "(SOk (mksobs %s %s %s %s %s %s %s %s %s))" % (
+        src = o["after"] if o["status"] == "err" else o
+        r, a = src["res"], src["arg"]
+        out = ("(SErrThen %s " % err_term(o["err"]) if o["status"] == "err" else "(SOk ") + "(mksobs %s %s %s %s %s %s %s %s %s))" % (
             "[" + "; ".join(pt_out(p) for p in r["V"]) + "]", pairs(r["E"]), zll(r["F"]), pairs(r["corn"]),
             "[" + "; ".join(pt_out(p) for p in a["V"]) + "]", pairs(a["E"]), zll(a["F"]), pairs(a["corn"]),
-            core.coq_bool(o["arg_conn_ok"]))
+            core.coq_bool(src["arg_conn_ok"]))
     return "(%s, %s, %s, %s, %s)" % (V, zll(case["F"]), core.coq_bool(bool(case.get("query"))), ops, out)
 
 
@@ -319,38 +365,38 @@ def sd_term(case, o):
 
 def poly_term(case, o):
     V = "[" + "; ".join(pt_in(p) for p in case["V"]) + "]"
-    if o["status"] == "err":
-        out = "None"
-    else:
-        r = o["res"]
-        out = "(Some (%s, %s))" % ("[" + "; ".join(pt_out(p) for p in r["V"]) + "]", pairs(r["E"]))
-    return "(%s, %s, %s, %s)" % (V, pairs(case["E"]), zl(case["splits"]), out)
+    raised = o["status"] == "err"
+    r = (o.get("after") or {}).get("res") if raised else o["res"]
+    out = "None" if r is None else "(Some (%s, %s))" % ("[" + "; ".join(pt_out(p) for p in r["V"]) + "]", pairs(r["E"]))
+    return "(%s, %s, %s, %s, %s)" % (V, pairs(case["E"]), zl(case["splits"]), core.coq_bool(raised), out)
 
 
 def vol_term(case, o):
     V = "[" + "; ".join(pt_in(p) for p in case["V"]) + "]"
     ops = "[" + "; ".join("(%s %s)" % ("CellFan" if op[0] == "cellfan" else "FaceCentre", zlit(op[1])) for op in case["ops"]) + "]"
-    if o["status"] == "err":
+    raised = o["status"] == "err"
+    r = (o.get("after") or {}).get("res") if raised else o["res"]
+    if r is None or any(k not in r for k in ("E", "F", "C", "corn", "ccorn")):
         out = "None"
     else:
-        r = o["res"]
         out = "(Some (mkvobs %s %s %s %s %s %s))" % ("[" + "; ".join(pt_out(p) for p in r["V"]) + "]", pairs(r["E"]),
                                                       zll(r["F"]), zll(r["C"]), pairs(r["corn"]), pairs(r["ccorn"]))
-    return "(%s, %s, %s, %s)" % (V, zll(case["C"]), ops, out)
+    return "(%s, %s, %s, %s, %s)" % (V, zll(case["C"]), ops, core.coq_bool(raised), out)
 
 
 ENC = {"surf": (surf_term, "check_surface", "(list pt * list (list Z) * bool * list sop * sout)"),
        "sd": (sd_term, "check_split_double", "(list pt * list (list Z) * option (list pt * list edge * list (list Z) * list (Z * Z)))"),
-       "poly": (poly_term, "check_polyline", "(list pt * list edge * list Z * option (list pt * list edge))"),
-       "vol": (vol_term, "check_volume", "(list pt * list (list Z) * list vop * option vobs)")}
+       "poly": (poly_term, "check_polyline", "(list pt * list edge * list Z * bool * option (list pt * list edge))"),
+       "vol": (vol_term, "check_volume", "(list pt * list (list Z) * list vop * bool * option vobs)")}
 
 
 def encodable(case, o):
     """observations the Coq literals can carry (an edge that is not a pair cannot be written as one)"""
     if o.get("status") == "driver-error":
         return False
-    if o["status"] == "ok":
-        for d in (o["res"], o["arg"]):
+    src = o if o["status"] == "ok" else o.get("after")
+    if src:
+        for d in (src["res"], src["arg"]):
             if not edges_ok(d.get("E", [])):
                 return False
     return True
@@ -384,7 +430,7 @@ def shrink(case, cls):
     def fails(c):
         try:
             oc = run_one(c)
-            return any(k == cls and failure_key(c, oc, k) is None for k, _ in ORA.check(c, oc))
+            return any(k == cls and kk is None for k, _, kk in judge(c, oc))
         except Exception:
             return False
     cur = dict(case)
@@ -404,9 +450,9 @@ def shrink(case, cls):
                     break
         # smaller repeat counts
         for i, op in enumerate(cur[opk] if opk == "ops" else []):
-            if len(op) == 2 and op[0] in ("loop", "tri6") and op[1] > 1:
+            if len(op) >= 2 and op[0] in ("loop", "tri6") and op[1] > 1:
                 cand = dict(cur)
-                cand["ops"] = cur["ops"][:i] + [[op[0], 1]] + cur["ops"][i + 1:]
+                cand["ops"] = cur["ops"][:i] + [[op[0], 1, "pos"]] + cur["ops"][i + 1:]
                 budget -= 1
                 if fails(cand):
                     cur = cand
@@ -457,7 +503,7 @@ def nontrivial(case, o):
 
 def run(ctx):
     quick = ctx.tier == "quick"
-    n_surf, n_sd, n_poly, n_vol = (240, 40, 50, 90) if quick else (7000, 1000, 1000, 2200)
+    n_surf, n_sd, n_poly, n_vol = (210, 40, 50, 90) if quick else (7000, 1000, 1000, 2200)
     max_faces = 200 if quick else 500
     ctx.rule = ("surfaces from 18 seed kinds (triangle/quad/polygon faces, disks, annuli, tori, closed polyhedra, holes, "
                 "two components; renumbered, rotated, shuffled) with 0-4 editor operations in one block (at most 5 levels "
@@ -510,11 +556,13 @@ def run(ctx):
     # 1. independent oracle on every case (also the search for a failing input)
     fails = []          # (index, class, message)
     for idx, (c, o) in enumerate(zip(cases, obs)):
-        for cls, msg in ORA.check(c, o):
-            fails.append((idx, cls, msg))
+        for cls, msg, key in judge(c, o):
+            fails.append((idx, cls, msg, key))
+        if c.get("expect_error"):
+            ctx.count("block whose last operation raises (%s)" % c["kind"])
     harness = [f for f in fails if f[1].startswith("harness/")]
     ctx.obligation("oracle ran on every case (inputs valid, driver built them)", "oracle-on-implementation", not harness,
-                   "; ".join("%d:%s" % (i, m) for i, _, m in harness[:3]))
+                   "; ".join("%d:%s" % (i, m) for i, _, m, _ in harness[:3]))
     fails = [f for f in fails if not f[1].startswith("harness/")]
 
     # 2. kernel-checked correspondence, per case kind
@@ -542,8 +590,8 @@ def run(ctx):
                          (KEY_CUT, WITNESS_NS, "quad cut along a diagonal that is already joined"),
                          (KEY_PILLOW, WITNESS_PILLOW, "two triangles on the same three vertices")):
         ow = wobs[key]
-        fw = [(k, m) for k, m in ORA.check(w, ow) if failure_key(w, ow, k) == key]
-        other = [(k, m) for k, m in ORA.check(w, ow) if failure_key(w, ow, k) is None]
+        fw = [(k, m) for k, m, kk in judge(w, ow) if kk == key]
+        other = [(k, m) for k, m, kk in judge(w, ow) if kk is None]
         if fw:
             ctx.violation("%s: %s" % (what, fw[0][1]), {"case": strip(w), "class": fw[0][0]}, key=key)
         else:
@@ -553,7 +601,7 @@ def run(ctx):
             ctx.violation("witness of %s fails in an unrecorded way: %s: %s" % (key, k, m), {"case": strip(w), "class": k})
 
     # 4. verdicts: EVERY failing element is classified; unknown keys are violations and are reported first
-    keyed = [(idx, cls, msg, failure_key(cases[idx], obs[idx], cls)) for idx, cls, msg in fails]
+    keyed = fails
     unknown = [f for f in keyed if f[3] is None]
     for idx, cls, msg, key in keyed:
         if key is not None:
@@ -569,7 +617,7 @@ def run(ctx):
         reported.add(cls)
         small = shrink(strip(cases[idx]), cls)
         o2 = run_one(small)
-        m2 = [m for k, m in ORA.check(small, o2) if k == cls and failure_key(small, o2, k) is None]
+        m2 = [m for k, m, kk in judge(small, o2) if k == cls and kk is None]
         if not m2:
             small, o2, m2 = strip(cases[idx]), obs[idx], [msg]
         ctx.violation("%s: %s" % (cls, m2[0]), {"case": small, "class": cls})
@@ -581,7 +629,7 @@ def run(ctx):
             ctx.violation("failure classified under %s, which is not a recorded finding" % key, {"case": strip(cases[i0]), "class": key})
     allbad = sorted(i for l in bad.values() if l for i in l)
     if allbad:
-        explained = {i for i, cls, _ in fails}
+        explained = {f[0] for f in fails}
         for i in allbad[:4]:
             ctx.log("model/implementation disagreement on case %d: %s" % (i, json.dumps(strip(cases[i]))[:600]))
         if not (set(allbad) <= explained):
@@ -597,7 +645,7 @@ def replay(ctx, data):
         print("replay file names no concrete input:", json.dumps(data)[:400])
         return 1
     o = run_one(case)
-    msgs = ORA.check(case, o)
+    msgs = [(k, m) for k, m, kk in judge(case, o)]
     print("case:", json.dumps(case)[:800])
     print("status:", o.get("status"), o.get("err", ""))
     if o.get("status") == "ok":
